@@ -5,7 +5,7 @@ for patch in "$@"; do
   wt=$(mktemp -d /tmp/matrix.XXXXXX)
   git -C /repo worktree add -q --detach "$wt" HEAD >/dev/null 2>&1
   if ! git -C "$wt" apply "$patch" 2>/dev/null; then echo "$patch: DOES-NOT-APPLY"; git -C /repo worktree remove --force "$wt"; continue; fi
-  out=$(cd /verif && VERIF_REPO="$wt" VERIF_EVIDENCE_DIR="$wt/.evidence" ./bin/sa check-all 2>&1)
+  out=$(cd /verif && VERIF_REPO="$wt" VERIF_EVIDENCE_DIR="$wt/.evidence" ${SA:-./bin/sa} check-all 2>&1)
   caught=$(echo "$out" | awk '/^RESULT/ && $3!=0 {printf "%s%s", sep, $2 ($3==2?"(err)":""); sep=","}')
   [ -z "$(echo "$out" | grep '^RESULT')" ] && caught="LOAD-ERROR"
   echo "$patch: ${caught:-none}"
